@@ -260,7 +260,7 @@ func (g *Grid) ExpectedRecords() [][]string {
 	return recs
 }
 
-// WideGrids: tables crossing the 10-column mark (the core pre-allocates 10 column slots).
+// WideGrids: tables crossing the 10-column mark (the core pre-allocates 10 column slots) and one crossing the 50-row mark.
 func WideGrids() []*Grid {
 	mk := func(n int, pfx string) []string {
 		out := make([]string, n)
@@ -269,7 +269,20 @@ func WideGrids() []*Grid {
 		}
 		return out
 	}
+	// a tall table: 56 rows (the core pre-allocates 50 row slots), separators and ragged rows among them
+	tall := &Grid{HasHeader: true, Header: []string{"h1", "h2"}}
+	for i := 0; i < 56; i++ {
+		switch {
+		case i%9 == 4:
+			tall.Rows = append(tall.Rows, GridRow{Sep: true})
+		case i%7 == 3:
+			tall.Rows = append(tall.Rows, GridRow{Cells: []string{fmt.Sprintf("r%d", i)}})
+		default:
+			tall.Rows = append(tall.Rows, GridRow{Cells: []string{fmt.Sprintf("r%d", i), fmt.Sprintf("v%d", i)}})
+		}
+	}
 	return []*Grid{
+		tall,
 		{HasHeader: true, Header: mk(11, "h"), Rows: []GridRow{{Cells: mk(11, "a")}, {Sep: true}, {Cells: mk(3, "b")}, {Cells: []string{}}}},
 		{HasHeader: true, Header: mk(12, "h"), Rows: []GridRow{{Cells: mk(9, "a")}, {Cells: mk(12, "b")}}},
 		{Rows: []GridRow{{Cells: mk(2, "a")}, {Cells: mk(13, "b")}, {Cells: mk(10, "c")}}},
